@@ -24,6 +24,9 @@ type faultSpec struct {
 	How   string
 	Pos   string // low | mid | high
 	One   bool   // p2p types only: alter the copy for ONE recipient, the other recipients get the genuine message
+	// Victim (with One): "" = the first recipient routed | same-index = the recipient whose index in its committee equals
+	// the deviator's index in its own | other-index = the first recipient with a different index | last = the last recipient
+	Victim string
 }
 
 func (f faultSpec) String() string {
@@ -34,6 +37,9 @@ func (f faultSpec) String() string {
 	one := ""
 	if f.One {
 		one = "/one-recipient"
+		if f.Victim != "" {
+			one += ":" + f.Victim
+		}
 	}
 	return fmt.Sprintf("%s.%s%s:%s@%s%s", f.Type, f.Field, ix, f.How, f.Pos, one)
 }
@@ -43,12 +49,12 @@ func (f faultSpec) P(base core.P) core.P {
 	for k, v := range base {
 		p[k] = v
 	}
-	p["ftype"], p["ffield"], p["findex"], p["fhow"], p["fpos"], p["fone"] = f.Type, f.Field, f.Index, f.How, f.Pos, f.One
+	p["ftype"], p["ffield"], p["findex"], p["fhow"], p["fpos"], p["fone"], p["fvictim"] = f.Type, f.Field, f.Index, f.How, f.Pos, f.One, f.Victim
 	return p
 }
 
 func faultFromP(p core.P) faultSpec {
-	return faultSpec{Type: p.Str("ftype"), Field: p.Str("ffield"), Index: p.Str("findex"), How: p.Str("fhow"), Pos: p.Str("fpos"), One: p.Bool("fone")}
+	return faultSpec{Type: p.Str("ftype"), Field: p.Str("ffield"), Index: p.Str("findex"), How: p.Str("fhow"), Pos: p.Str("fpos"), One: p.Bool("fone"), Victim: p.Str("fvictim")}
 }
 
 // uncoveredFields: (type.field) whose value no commitment opening, share check or ZK proof covers (from the protocol
@@ -143,6 +149,21 @@ type faultRun struct {
 	f       faultSpec
 	applied int
 	note    string
+	victim  *sim.Node // one-recipient faults: who got the altered copy
+}
+
+// groupIndex is the position of n among the nodes of its group (= its index in its committee: nodes are added in id order).
+func groupIndex(w *sim.World, n *sim.Node) int {
+	i := 0
+	for _, o := range w.Nodes {
+		if o == n {
+			return i
+		}
+		if o.Group == n.Group {
+			i++
+		}
+	}
+	return -1
 }
 
 func pickDeviator(w *sim.World, role, pos string) *sim.Node {
@@ -319,7 +340,26 @@ func runFault(s *session, f faultSpec, sched string) (*faultRun, error) {
 		}
 		if f.One && !sp.Bcast {
 			if victim == nil {
-				victim = to
+				ok := true
+				switch f.Victim {
+				case "same-index":
+					ok = to != fr.dev && groupIndex(w, to) == groupIndex(w, fr.dev)
+				case "other-index":
+					ok = groupIndex(w, to) != groupIndex(w, fr.dev)
+				case "last":
+					ok = false
+					var last *sim.Node
+					for _, n := range w.Nodes {
+						if n != fr.dev && (sp.To == "all" || sp.To == n.Group || sp.To == "old+new") {
+							last = n
+						}
+					}
+					ok = to == last
+				}
+				if ok {
+					victim = to
+					fr.victim = to
+				}
 			}
 			if to != victim {
 				return m.Wire, m.Bcast, m.From.PID, false
